@@ -22,6 +22,24 @@ Theorem C16_ordered_valid_release_is_accepted : forall asserts dbl l m, OInv l -
 Proof. exact dealloc_valid. Qed.
 Print Assumptions C16_ordered_valid_release_is_accepted.
 
+(* the same for arrays (deallocate(ptr, n) with n above the node size, i.e. deallocate_array of the pools): memory whose
+   first node is on the free list never goes through -- whatever the nodes behind it are --, and the model writes nothing
+   before the search has answered (the code's order since fix 6025e9a: the fill pattern comes after the check) *)
+Theorem C16_ordered_array_double_release_is_stopped : forall asserts l m bytes, OInv l -> In m (nodes l) ->
+  o_dealloc_array asserts true l m bytes = Reported \/ o_dealloc_array asserts true l m bytes = Unreachable \/ o_dealloc_array asserts true l m bytes = AssertFail.
+Proof. exact dealloc_array_double_stopped. Qed.
+Print Assumptions C16_ordered_array_double_release_is_stopped.
+
+(* a valid array release (no node of the list inside the array's extent) is never reported, in any configuration; every node
+   the array occupied is on the list afterwards and the list keeps its invariant *)
+Theorem C16_ordered_valid_array_release_is_accepted : forall asserts dbl l m bytes, OInv l -> nsz l < bytes ->
+  (forall x, In x (nodes l) -> x < m \/ m + Z.of_nat (nodes_for l bytes) * nsz l <= x) ->
+  exists l', o_dealloc_array asserts dbl l m bytes = Ret l' /\ OInv l' /\
+             (forall x, In x (nodes l') <-> In x (block_nodes (nodes_for l bytes) m (nsz l)) \/ In x (nodes l)) /\
+             n_of l' = (n_of l + nodes_for l bytes)%nat.
+Proof. exact dealloc_array_valid. Qed.
+Print Assumptions C16_ordered_valid_array_release_is_accepted.
+
 (* ---- small-node pools ---- *)
 (* outside the node memory of every chunk: reported -- or, for the one address that is the header of the chunk the search
    starts from, stopped by the unreachable-code abort *)
